@@ -171,6 +171,8 @@ def build_cases(seed, n, max_points):
     for i in range(n):
         g = Gen(seed * 100003 + i + 500)
         g.features["fail"] = 0.0
+        g.features["clobber"] = 0.0
+        g.features["late_subplan"] = 0.0  # F8: outcome of such plans depends on the schedule
         proj = g.project()
         hist = g.history(proj, nphases=g.rng.choice([1, 2, 3]), watch_p=0.0, cfgs=cfgs)
         cases.append({"tid": f"c{seed}-{i}", "project": proj, "phases": hist, "seed": seed * 17 + i, "max_points": max_points})
